@@ -3,7 +3,9 @@
     of kind among the operations that copy something (BannerCount) for every sequence of
     <= 4 (thorough 5) operations over read / readword / readline (with data or at end of
     input) / printf / write / errprintf / errwrite; the "readline-out" variant (code before
-    fix 3cfd005: ReadLine recorded OUTPUT mode) must violate BannerCount.
+    fix 3cfd005: ReadLine recorded OUTPUT mode) must violate BannerCount; every payload is
+    copied verbatim (Verbatim); the "reformat" variant (code before fix 3cf3487: data handed
+    to Printf as a format string) must violate it.
 (R) every operation sequence on a real Repeater over real Input / Output objects: both
     transcripts must be the specified sequence of banners and payloads (every payload contains a '%')."""
 import json
